@@ -2056,7 +2056,6 @@ def catalogue(t):
       doc='inversion of an upper triangular matrix: regime switch on nrows*ncols vs 2*L3 (size_t arithmetic), split, the two '
           'translated TRSM routines on windows, two recursive calls (function parameters)')
     PLE_EXT = {'_mzd_ple': dict(mats=(0,), perms=(1, 2), ret='i', writes=(0,), pwrites=(1, 2)),
-               '_mzd_trsm_lower_left': dict(mats=(0, 1), writes=(1,)),
                'mzd_addmul': dict(mats=(0, 1, 2), writes=(0,)),
                '_mzd_compress_l': dict(mats=(0,), writes=(0,))}
     F('m4ri/ple.c', '_mzd_ple', 'pleRecStep', fuels=['(v_nrows).toNat', '(v_ncols).toNat', '(v_ncols).toNat'],
